@@ -622,6 +622,7 @@ def c17_matrix(a):
                                         kat={l[1]: l[2] for l in lines if l and l[0] == "KAT"},
                                         dudect={l[1]: l[2] for l in lines if l and l[0] == "DUDECT"},
                                         osrng={l[1]: l[2] for l in lines if l and l[0] == "OSRNG"},
+                                        hostile={l[1]: l[2] for l in lines if l and l[0] == "HOSTILE"},
                                         stderr=r.stderr[-600:] if r.returncode != 0 else "")
             # stage 3: no_std
             if not cfg["rng"]:
@@ -691,6 +692,16 @@ def c17_matrix(a):
                     good = False
                     violations.append(dict(signature=f"C17|osrng-failed|{r['features']}|ML-DSA-{s}", detail="OS-RNG convenience functions failed or produced unverifiable output",
                                            replay=dict(kind="c17", features=r["features"], stage="kat", profile=prof, set=s)))
+            for s, v in k.get("hostile", {}).items():
+                if v != "ok":
+                    good = False
+                    violations.append(dict(signature=f"C17|hostile-key-signing|{r['features']}|ML-DSA-{s}|{v[:60]}",
+                                           detail=f"signing with the rejection-heavy accepted key of kat/src/fixtures.rs under features '{r['features']}': {v} (the reference signs it after several hundred iterations)",
+                                           replay=dict(kind="c17", features=r["features"], stage="kat", profile=prof, set=s)))
+            if sorted(k.get("hostile", {}).keys()) != sorted(r["sets"]):
+                good = False
+                violations.append(dict(signature=f"C17|hostile-missing|{r['features']}", detail="the hostile-key fixture was not exercised for every enabled set",
+                                       replay=dict(kind="c17", features=r["features"], stage="kat", profile=prof)))
             if r["rng"] and sorted(k.get("osrng", {}).keys()) != sorted(r["sets"]):
                 good = False
                 violations.append(dict(signature=f"C17|osrng-missing|{r['features']}", detail="default-rng enabled but the OS-RNG functions were not exercised for every set",
@@ -730,7 +741,7 @@ def c17_matrix(a):
 
 PLANS["C17"] = dict(
     level="exploration",
-    rule_prefix="all 28 configurations (7 non-empty subsets of {ml-dsa-44, ml-dsa-65, ml-dsa-87} x default-rng on/off x dudect on/off): (1) cargo check/build --lib --no-default-features --features <cfg> must succeed (the crate's deny(warnings, dead_code, ...) turns any warning into an error); (2) a known-answer program built against the crate with the same features prints SHA-256 of a transcript per enabled set (keys from 4 seeds via both keygen paths, derived and round-tripped keys, signatures in 4 modes under a scripted RNG, _internal_sign, verification decisions on valid/corrupted/wrong-context inputs, long-context rejection) which must equal the default configuration's digest for that set; default-rng configurations also run the OS-RNG functions; dudect configurations compare dudect output among themselves; (3) the 14 configurations without default-rng are built for x86_64-unknown-none with -Zbuild-std=core (no std in the sysroot), the others must not enable any dependency's std feature (cargo tree). Non-trivial = configurations for which every stage passed. ",
+    rule_prefix="all 28 configurations (7 non-empty subsets of {ml-dsa-44, ml-dsa-65, ml-dsa-87} x default-rng on/off x dudect on/off): (1) cargo check/build --lib --no-default-features --features <cfg> must succeed (the crate's deny(warnings, dead_code, ...) turns any warning into an error); (2) a known-answer program built against the crate with the same features prints SHA-256 of a transcript per enabled set (keys from 4 seeds via both keygen paths, derived and round-tripped keys, signatures in 4 modes under a scripted RNG, _internal_sign, verification decisions on valid/corrupted/wrong-context inputs, long-context rejection; plus an accepted private key with extreme t0 and an input for which the reference needs 400-2500 rejection iterations: the signature must be the reference's, and the same key with one out-of-range field must be refused) which must equal the default configuration's digest for that set; default-rng configurations also run the OS-RNG functions; dudect configurations compare dudect output among themselves; (3) the 14 configurations without default-rng are built for x86_64-unknown-none with -Zbuild-std=core (no std in the sysroot), the others must not enable any dependency's std feature (cargo tree). Non-trivial = configurations for which every stage passed. ",
     stages=[dict(name="c17-matrix", kind="py", func="c17_matrix")],
     assumptions=["the default configuration is the reference for behaviour; its own correctness is C01-C04's business",
                  "nightly lints are capped to warnings in the no_std target build so that only a real std/alloc dependency can fail it"])
